@@ -29,7 +29,7 @@ from vf.ref import quad
 from vf.ref import statmech as ref
 
 ID = 'C01'
-N = {'quick': 1300, 'thorough': 40000}
+N = {'quick': 4000, 'thorough': 60000}
 NT_RULE = ('case = species spec (one model per slot trans/vib/rot/elec/nucl + misc ConstantModes + '
            'reference offsets + options + <=2 re-assignment operations + 3 (T,P) points + one T '
            'interval + one P pair) or a geometry case (g2 molecule + rotation + translation + atom '
@@ -56,9 +56,10 @@ REQUIRED_PROBES = ['StatMech.get_quantity', '_get_mode_quantity', '_get_valid_vi
                    'RigidRotor.get_SoR', 'GroundStateElec.get_UoRT', 'LSR.get_UoRT',
                    'StatMech.get_EoRT']
 ASSUMPTIONS = [
-    'reference constants are the CODATA-2014 SI values pMuTT documents (h, kB, NA, e); derived '
-    'constants differ from pMuTT literals by <=1e-8, so closed forms (R7) are compared at 3e-6 '
-    '(scale-aware), Debye included (reference Debye integrals by 40-point Gauss-Legendre)',
+    'reference constants are the CODATA-2014 recommended values pMuTT documents (h, kB in J/K and '
+    'eV/K, NA, c); derived constants differ from pMuTT literals by <=1e-8, so closed forms (R7) are '
+    'compared at 1e-6 (scale-aware), Debye included (reference Debye integrals by 40-point '
+    'Gauss-Legendre)',
     'q is compared with a closed form only for HarmonicVib, linear/nonlinear RigidRotor and '
     '3-D FreeTrans; S of 1-/2-D translation has no textbook Sackur-Tetrode form and gets the '
     'relational clauses only; QRRHOVib.get_q is documented as not implemented and is not called',
@@ -75,7 +76,7 @@ ASSUMPTIONS = [
 TOL_REL = 1e-10       # R1, R4, R5
 TOL_INT = 1e-7        # R2, R3
 TOL_ADD = 1e-12       # R6
-TOL_CF = 3e-6         # R7
+TOL_CF = 1e-6         # R7 (largest error on correct code 8.6e-9: R/NA vs kB literals)
 TOL_GEO = 1e-8        # R8
 QUANTS = ('CvoR', 'CpoR', 'UoRT', 'HoRT', 'SoR', 'FoRT', 'GoRT')
 SLOTS = ('trans', 'vib', 'rot', 'elec', 'nucl')
@@ -711,7 +712,7 @@ def _observe_species(ctx, sm, objs, cur, spec, misc_objs=None, relations=True):
                     e1 = ctx.call('R6', dict(me, include_ZPE=True), sm.get_EoRT, T=T, include_ZPE=True, **ekw)
                     z = ctx.call('R6', dict(me, part='ZPE'), objs['vib'].get_ZPE)
                     if e1 is not core.NOVALUE and z is not core.NOVALUE:
-                        ctx.close('R6', _num(e1), ue + _num(z) / (ref.KB_EV * T), 1e-7, dict(me, include_ZPE=True),
+                        ctx.close('R6', _num(e1), ue + _num(z) / (ref.KB_EV * T), 1e-9, dict(me, include_ZPE=True),
                                   T=T, ZPE=z)
                 elif not o['raise_error']:
                     mz = dict(me, include_ZPE=True, vibslot='empty', raise_warning=o['raise_warning'])
